@@ -38,7 +38,7 @@ pub const PATTERNS: [&str; 24] = [
     "?a",
 ];
 
-pub const MULTI: [&str; 19] = [
+pub const MULTI: [&str; 21] = [
     "?s == (b ?a ?c), ?a == (var $0), ?c == (var $1)",
     "?a == (var $0), ?c == (var $1), ?s == (b ?a ?c)",
     "?s == (b ?a ?c), ?a == (h $0), ?c == (f $1 $0)",
@@ -58,6 +58,10 @@ pub const MULTI: [&str; 19] = [
     "?x == (b ?a ?b), ?a == (var $0), ?b == (var $0)",
     "?x == (b ?a ?b), ?a == (f $0 $1), ?b == (h $0)",
     "?x == (u ?a), ?a == (u ?b), ?b == (f $0 $1)",
+    // two variables bound first (to two different older slots), then a node that relates them through two
+    // DISTINCT slots, then a node that would need those two slots to be equal
+    "?p == (b ?a ?c), ?r == (b ?b ?d), ?q == (b ?a ?b), ?t == (b ?a ?b)",
+    "?p == (u ?a), ?r == (u ?b), ?q == (b ?a ?b), ?t == (b ?a ?b)",
 ];
 
 fn spaces(tier: Tier) -> Vec<Space> {
@@ -70,6 +74,8 @@ fn spaces(tier: Tier) -> Vec<Space> {
             Space { alpha: "SHARE", depth: 2 },
             Space { alpha: "A0", depth: 2 },
             Space { alpha: "SHARE", depth: 3 },
+            Space { alpha: "SAME", depth: 2 },
+            Space { alpha: "SAME", depth: 3 },
             Space { alpha: "MICRO", depth: 3 },
             Space { alpha: "A1", depth: 2 },
             Space { alpha: "CORE", depth: 3 },
@@ -83,10 +89,13 @@ fn spaces(tier: Tier) -> Vec<Space> {
             Space { alpha: "A1", depth: 2 },
             Space { alpha: "MICRO", depth: 3 },
             Space { alpha: "SHARE", depth: 3 },
+            Space { alpha: "SAME", depth: 2 },
+            Space { alpha: "SAME", depth: 3 },
             Space { alpha: "CORE", depth: 3 },
             Space { alpha: "A0", depth: 3 },
             Space { alpha: "MICRO", depth: 4 },
             Space { alpha: "SHARE", depth: 4 },
+            Space { alpha: "SAME", depth: 4 },
         ],
     }
 }
